@@ -8,7 +8,14 @@ mkdir -p $OUT
 git -C /repo worktree remove --force $WT 2>/dev/null; rm -rf $WT
 git -C /repo worktree add --detach $WT HEAD >/dev/null 2>&1 || { echo "$X: worktree failed"; exit 2; }
 ( cd $WT && git apply --whitespace=nowarn /tmp/seedwt/$X.patch ) || { echo "$X: patch does not apply"; git -C /repo worktree remove --force $WT; exit 2; }
+# the baseline suite has two tests with unseeded random operands (Test_FPAdder_SP::test_random, Test_FPtoInt_SP::test_random) that fail
+# about one run in four on the UNCHANGED tree: when they are the only failures the suite is re-run (at most 3 times)
+for TRY in 1 2 3 4; do
 ( cd $WT && PYTHONPATH=$WT timeout 1800 /venv/bin/python -m pytest -q -p no:cacheprovider --timeout=900 --continue-on-collection-errors -q > $OUT/tests.log 2>&1 ); TRC=$?
+[ $TRC -eq 0 ] && break
+OTHER=$(grep '^FAILED\|^ERROR' $OUT/tests.log | grep -v 'Test_FPAdder_SP::test_random\|Test_FPtoInt_SP::test_random' | wc -l)
+[ $OTHER -ne 0 ] && break
+done
 TSUM=$(tail -1 $OUT/tests.log)
 PYTHONPATH=$WT MPLBACKEND=Agg timeout 600 /venv/bin/python /tmp/seedwt/${X}_demo.py > $OUT/demo_with.log 2>&1; DW=$?
 PYTHONPATH=/repo MPLBACKEND=Agg timeout 600 /venv/bin/python /tmp/seedwt/${X}_demo.py > $OUT/demo_without.log 2>&1; DWO=$?
